@@ -637,7 +637,14 @@ Proof.
              destruct (exec_rpn_direct_cases a b c) as [[f ->]|[m ->]] end;
            [reflexivity|apply bf_runtime_error]]
   | (* PLAY *)
-    solve [apply exec_play_break_flag; exact Hec] ].
+    solve [apply exec_play_break_flag; exact Hec]
+  | (* TempoChange *)
+    solve [intros E; apply (exec_tempo_change_inv (fun x => s_break_flag x = s_break_flag s)) in E;
+           [exact E | intros s0 v H0; exact H0 | intros s0 f H0; exact H0 | reflexivity]]
+  | (* SysEx *)
+    solve [intros E; apply exec_sysex_cases in E; destruct E as [[_ [m ->]]|[_ [_ ->]]]; [apply bf_runtime_error|reflexivity]]
+  | (* GSEffect *)
+    solve [intros E; apply exec_gs_effect_cases in E; destruct E as (evs & _ & ->); reflexivity] ].
 Qed.
 
 Definition flag_kept (b : Z) (r : res song) : Prop := match r with Ok s => s_break_flag s = b | _ => True end.
